@@ -43,6 +43,9 @@ type busLog struct {
 	// bad-thermal-frame events offered / refused by the fake event service
 	badAddCalls, failedAdds int
 	queueCalls              int
+	// while set, the camera daemon refuses to switch automatic FFC back on
+	failAutoFFCOn    bool
+	refusedAutoFFCOn int
 }
 
 type fakeLeptond struct{ l *busLog }
@@ -55,8 +58,12 @@ func (f fakeLeptond) RestartCamera() *dbus.Error {
 }
 func (f fakeLeptond) SetAutoFFC(on bool) *dbus.Error {
 	f.l.mu.Lock()
+	defer f.l.mu.Unlock()
+	if on && f.l.failAutoFFCOn {
+		f.l.refusedAutoFFCOn++
+		return dbus.MakeFailedError(errors.New("verif: camera busy restarting"))
+	}
 	f.l.autoFFC = append(f.l.autoFFC, on)
-	f.l.mu.Unlock()
 	return nil
 }
 func (f fakeLeptond) RunFFC() *dbus.Error { return nil }
@@ -307,8 +314,49 @@ func TestVerif_Daemon(t *testing.T) {
 			return
 		}
 		conn.Write(cam.headerBytes())
-		frames := c10Frames(cam, "ffff"+strings.Repeat("m", 120)+"ffff")
 		nbad := 0
+		// first, one short motion recording ended by a rejected frame while the camera daemon, busy
+		// restarting the camera, refuses the request to switch automatic FFC back on: the recording
+		// is finished all the same
+		{
+			topLevel := func() int {
+				n := 0
+				for _, e := range dirListing(r.outDir) {
+					if strings.HasSuffix(e, ".cptv") {
+						n++
+					}
+				}
+				return n
+			}
+			before := topLevel()
+			r.log.mu.Lock()
+			r.log.failAutoFFCOn = true
+			r.log.mu.Unlock()
+			for i, f := range c10Frames(cam, "ffff"+strings.Repeat("m", 8)+"f"+strings.Repeat("f", 12)) {
+				if i == 12 {
+					f.Pix[5][5] = 0
+					nbad++
+				}
+				if _, err := conn.Write(f.raw(cam)); err != nil {
+					c.Inconclusive("frame socket write: " + err.Error())
+					return
+				}
+				time.Sleep(2 * time.Millisecond)
+			}
+			finished := waitFor(func() bool { return topLevel() > before }, 5*time.Second)
+			r.log.mu.Lock()
+			r.log.failAutoFFCOn = false
+			refused := r.log.refusedAutoFFCOn
+			r.log.mu.Unlock()
+			if refused == 0 {
+				c.Inconclusive("the daemon never asked to switch automatic FFC back on during the short recording")
+			} else if !finished {
+				c.ViolationP("C13", "recording-not-ended-at-bad-frame", "daemon tier; camera daemon refusing SetAutoFFC(true)", fmt.Sprintf("8 motion frames, then a rejected frame, then 12 still frames: no finished recording appeared in the output directory within 5 s (the camera daemon refused %d requests to switch automatic FFC on); entries: %v", refused, dirListing(r.outDir)))
+			} else {
+				c.Count("daemon_recordings_ended_by_bad_frame_with_leptond_refusing", 1)
+			}
+		}
+		frames := c10Frames(cam, "ffff"+strings.Repeat("m", 120)+"ffff")
 		for i, f := range frames {
 			if i == 50 || i == 51 || i == 90 {
 				f.Pix[5][5] = 0
